@@ -86,6 +86,11 @@ def cint(tok):
     if not m:
         m2 = re.fullmatch(r"'(.)'", tok)
         if m2: return ord(m2.group(1))
+        # a parenthesised constant, or a shift of two constants: (1 << 20)
+        m3 = re.fullmatch(r"\((.*)\)", tok)
+        if m3: return cint(m3.group(1))
+        m4 = re.fullmatch(r"(.+?)\s*<<\s*(.+)", tok)
+        if m4: return cint(m4.group(1)) << cint(m4.group(2))
         raise ExtractError("not an integer constant: %r" % tok)
     v = int(m.group(2), 0)
     return -v if m.group(1) == "-" else v
@@ -218,7 +223,7 @@ def extract_all():
     # regex.c
     rx = strip_comments(src("regex.c"))
     rdefs = defines(rx)
-    for k in ("NGRPS", "NREPS", "NDEPT"):
+    for k in ("NGRPS", "NREPS", "NDEPT", "NCODE"):
         data[k] = cint(expand(rdefs[k], rdefs))
     bc = []
     for p in split_top(find_initializer(rx, r"\bbrk_classes\s*\[\s*\]\s*\[\s*2\s*\]\s*=\s*\{")):
@@ -296,7 +301,7 @@ def render(data):
     L.append("def options : List (List Nat × List Nat × String) := [" + ",\n  ".join('(%s, %s, "%s")' % (lean_list(a), lean_list(b), c) for a, b, c in data["options"]) + "]\n")
     if data["loc_chars"] is None: raise ExtractError("ex_loc character set not found")
     L.append("def locChars : List Nat := " + lean_list(data["loc_chars"]) + "\n")
-    for k in ("NGRPS", "NREPS", "NDEPT", "SBUFSZ", "NMARKS", "RD_CHUNK", "WR_BATCH", "LN_INIT", "HIST_INIT", "EXLEN", "NBUFS"):
+    for k in ("NGRPS", "NREPS", "NDEPT", "NCODE", "SBUFSZ", "NMARKS", "RD_CHUNK", "WR_BATCH", "LN_INIT", "HIST_INIT", "EXLEN", "NBUFS"):
         L.append("def %s : Nat := %d" % (k, data[k]))
     L.append("\nend Neatvi.Gen")
     return "\n".join(L) + "\n"
